@@ -15,7 +15,7 @@ import types
 
 from vlib import gen as G
 from vlib import origins as O
-from vlib.spec import S, build, deep_copy, effective_props, preorder, spec_json, tv, child_slots
+from vlib.spec import FACTORY, S, build, deep_copy, effective_props, preorder, spec_json, tv, child_slots
 from vlib.universe import core_universe
 
 LEVEL = "exploration"
@@ -380,6 +380,8 @@ def run_shard(ctx):
                 return f"{path}: class {type(r).__name__}, expected {e.cls}"
             ep = effective_props(U, e)
             for f in U.prop_fields(e.cls):
+                if ep[f.name] is FACTORY:
+                    continue
                 if tv(getattr(r, f.name)) != tv(ep[f.name]):
                     return f"{path}: property {f.name} = {getattr(r, f.name)!r}, expected {ep[f.name]!r}"
             if O.canon_real(r.origin) != O.canon_spec(e.origin):
